@@ -275,6 +275,27 @@ Holds(c, r) ==
             CtGridShape(r, r.fo, r.foff) /\ \A i \in 1..CtN(r) : CtFlatOK(CtClass(r, i), r.hapx, r.fo[i], r.U)
       [] OTHER -> FALSE
 
+(* ================================================================ undecided: a tied mode *)
+(* The mode (peak of a Gaussian KDE, taken at a data point) is not a function of the data when two peaks are equally   *)
+(* high: on a multiset that is symmetric about its centre (two bins a, b; values -65, -65, -63, -63; ...) mirror-image  *)
+(* points have mathematically equal densities and float rounding picks one -- before the shift one, after it possibly   *)
+(* the other.  "The mode of the result is zero" has no truth value then.  Decided by the specification, not guessed:    *)
+(* the FIRST re-applied call whose result is not the logged result plus the shift was made on a symmetric multiset      *)
+(* and returned exactly the mirror image of the logged result.  Such a record is counted `undecided` for               *)
+(* center_zero_reapplied (evidence: undecided_by_table); every other clause is still judged.                            *)
+CtSymmetric(a) == LET t == FxSortAsc(a)  n == Len(t) IN
+                  \A i \in 1..n : ZAdd(t[i], t[n + 1 - i]) = ZAdd(t[1], t[n])
+CtMirror(a, v) == LET t == FxSortAsc(a) IN ZSub(ZAdd(t[1], t[Len(t)]), v)
+CtModeTieFlip(r) ==
+    /\ r.err = "" /\ Len(r.log) > 0 /\ Len(r.relog) = Len(r.log)
+    /\ LET sh == ZNeg(CtLast(r.log))
+           moved(j) == ~FxCloseAbs(r.relog[j].res, ZAdd(r.log[j].res, sh), CtTol9)
+           firsts == {j \in 1..Len(r.log) : moved(j) /\ \A q \in 1..j - 1 : ~moved(q)}
+       IN \E j \in firsts :
+             /\ CtSymmetric(r.log[j].args)
+             /\ FxCloseAbs(r.relog[j].res, ZAdd(CtMirror(r.log[j].args, r.log[j].res), sh), CtTol9)
+Undecided(r) == IF r.op = "center.mode" /\ CtModeTieFlip(r) THEN {"center_zero_reapplied"} ELSE {}
+
 (* ================================================================ premise *)
 CtNamesOK(r) ==
     /\ r.pfx \in K!Prefixes /\ r.genome \in K!Genomes
